@@ -22,6 +22,11 @@ var c18Allowed = []string{
 	"(*math/big.Int).", "(cosmossdk.io/math.Int).", "(*cosmossdk.io/errors.Error).", "(github.com/cosmos/cosmos-sdk/types.Coin).",
 	"(github.com/cosmos/cosmos-sdk/types.Coins).", "(github.com/cosmos/cosmos-sdk/types.AccAddress).",
 	"github.com/cosmos/cosmos-sdk/types.ValidateDenom", "(encoding/binary.bigEndian).", "(encoding/binary.littleEndian).",
+	// further pure, state-free standard and crypto library functions a refactoring may reach for
+	"math.", "math/bits.", "unicode.", "unicode/utf8.", "slices.", "cmp.", "encoding/base64.", "crypto/sha256.", "crypto/sha512.",
+	"golang.org/x/crypto/sha3.", "github.com/ethereum/go-ethereum/crypto.", "github.com/ethereum/go-ethereum/common.",
+	"(github.com/ethereum/go-ethereum/common.Address).", "(github.com/ethereum/go-ethereum/common.Hash).",
+	"github.com/cosmos/cosmos-sdk/types/bech32.", "github.com/cosmos/btcutil/base58.",
 }
 
 var c18Forbidden = []string{"time.", "math/rand", "crypto/rand", "os.", "runtime.", "sync.", "sync/atomic.", "reflect.", "unsafe.", "net.", "io/ioutil.", "syscall."}
